@@ -69,13 +69,17 @@ exception Unsupported
 
 (* ---------- registers ---------- *)
 type skreg = { mutable sk : M.sketch option; mutable tbl : (string, M.qc) Hashtbl.t;
-               mutable mn : M.f64; mutable mx : M.f64 }
+               mutable mn : M.f64; mutable mx : M.f64;
+               mutable gm : (M.f64 -> M.z) option * (M.z -> M.f64) option }   (* the glue model's Index / Value for this register's mapping, when known *)
+(* differences between the mapping tables observed from the implementation (# idx, # val) and the glue model's own answers *)
+let xdiff : string list ref = ref []
 let stores : (string, M.store option) Hashtbl.t = Hashtbl.create 16
 let sketches : (string, skreg) Hashtbl.t = Hashtbl.create 16
 let bytesr : (string, string) Hashtbl.t = Hashtbl.create 16
 let datasets : (string, M.dataset) Hashtbl.t = Hashtbl.create 16
+let statsr : (string, M.summary) Hashtbl.t = Hashtbl.create 16
 let specs : (string, M.mapid * M.f64 * M.f64) Hashtbl.t = Hashtbl.create 16   (* global: mapping spec -> identity, range *)
-let reset_regs () = Hashtbl.reset stores; Hashtbl.reset sketches; Hashtbl.reset bytesr; Hashtbl.reset datasets
+let reset_regs () = Hashtbl.reset stores; Hashtbl.reset sketches; Hashtbl.reset bytesr; Hashtbl.reset datasets; Hashtbl.reset statsr
 
 let get_store r = match Hashtbl.find_opt stores r with Some (Some s) -> s | _ -> raise Unsupported
 let get_sk r = match Hashtbl.find_opt sketches r with Some ({ sk = Some s; _ } as g) -> (g, s) | _ -> raise Unsupported
@@ -113,10 +117,21 @@ let side_map side : (M.mapid * M.f64 * M.f64) option =
           f64_of_hex (unx mn), f64_of_hex (unx mx))
 let absorb_vals (g : skreg) side =
   List.iter (fun l -> match String.split_on_char ' ' l with
-                      | ["#"; "val"; i; x] -> if x <> "xnan" then Hashtbl.replace g.tbl i (M.f2q (f64_of_hex (unx x)))
+                      | ["#"; "val"; i; x] ->
+                        (match snd g.gm with
+                         | Some value -> let mv = xstr (value (z_of (Z.of_string i))) in
+                           if mv <> x && not (List.mem "MODEL-VAL-DIFFERS" !xdiff) then xdiff := ("MODEL-VAL-DIFFERS " ^ i ^ ":" ^ mv) :: !xdiff
+                         | None -> ());
+                        if x <> "xnan" then Hashtbl.replace g.tbl i (M.f2q (f64_of_hex (unx x)))
                       | _ -> ()) side
 let mtable_of (g : skreg) side : M.mtable =
-  { M.mt_index = (fun _ -> match side_find side "idx" with Some [i] -> z_of (Z.of_string i) | _ -> raise (Missing "idx"));
+  { M.mt_index = (fun v -> match side_find side "idx" with
+        | Some [i] ->
+          (match fst g.gm with
+           | Some index -> let mi = Z.to_string (to_z (index (M.q2f v))) in if mi <> i then xdiff := ("MODEL-IDX-DIFFERS " ^ mi) :: !xdiff
+           | None -> ());
+          z_of (Z.of_string i)
+        | _ -> raise (Missing "idx"));
     M.mt_value = (fun i -> let k = Z.to_string (to_z i) in
                            match Hashtbl.find_opt g.tbl k with Some v -> v | None -> raise (Missing ("val " ^ k)));
     M.mt_min = g.mn; M.mt_max = g.mx }
@@ -162,7 +177,7 @@ let sk_result (g : skreg) (r : M.sketch M.result) : string =
   | M.RErr e -> "err " ^ err_name e
   | M.RPanic -> g.sk <- None; "panic"
 
-let new_reg mn mx sk = { sk; tbl = Hashtbl.create 64; mn; mx }
+let new_reg mn mx sk = { sk; tbl = Hashtbl.create 64; mn; mx; gm = (None, None) }
 
 let kobs_line (g : skreg) (s : M.sketch) side : string =
   absorb_vals g side;
@@ -325,6 +340,9 @@ let exec_proto (toks : string list) (side : string list) : string =
   | ["fromproto"; r; p] ->
     (match merge_with_proto (get_store r) (Hashtbl.find pstores p) with
      | Some s -> Hashtbl.replace stores r (Some s); "ok" | None -> Hashtbl.replace stores r None; "panic")
+  | ["newfromproto"; r; p] ->
+    (match merge_with_proto (M.st_new M.KDense) (Hashtbl.find pstores p) with
+     | Some s -> Hashtbl.replace stores r (Some s); "ok" | None -> Hashtbl.replace stores r None; "panic")
   | ["ktoproto"; p; k] -> let (_, s) = get_sk k in Hashtbl.replace psketches p (pb_of_sketch s); "ok"
   | ["kpobs"; p] -> pb_sketch_str (Hashtbl.find psketches p)
   | ["kstream"; b; k] ->
@@ -349,7 +367,7 @@ let exec_proto (toks : string list) (side : string list) : string =
        if not (kk = 0 || kk = 1 || kk = 3) then "err other"
        else if M.fle pm.M.pm_gamma (f64_of_hex "3ff0000000000000") then "err bad-gamma"
        else
-         let fresh () = M.st_new (parse_kind kind) in
+         let fresh () = M.st_new (parse_kind (if kind = "default" then "pag" else kind)) in
          let fill o = (match o with Some sp -> merge_with_proto (fresh ()) sp | None -> Some (fresh ())) in
          (match fill msg.M.ps_pos, fill msg.M.ps_neg, side_map side with
           | Some ps, Some ns, Some (_, mn, mx) ->
@@ -364,7 +382,7 @@ let exec_proto (toks : string list) (side : string list) : string =
         M.ps_pos = st pp; M.ps_neg = st np; M.ps_zero = f64_of_hex zero }; "ok"
   | _ -> raise Unsupported
 
-let exec (toks : string list) (side : string list) (impl_result : string) : string =
+let rec exec (toks : string list) (side : string list) (impl_result : string) : string =
   match toks with
   (* ----- stores ----- *)
   | ["new"; r; k] -> Hashtbl.replace stores r (Some (M.st_new (parse_kind k))); "ok"
@@ -467,6 +485,14 @@ let exec (toks : string list) (side : string list) (impl_result : string) : stri
           Hashtbl.replace specs spec (m, mn, mx);
           Hashtbl.replace sketches k (new_reg mn mx (Some (M.sk_new m (parse_kind pk) (parse_kind nk) exact)));
           "ok" ^ (match model_mapping spec with Ok gm -> map_diff gm side | Error _ -> " MODEL-MAP-DIFFERS refused")))
+  (* the convenience constructors are the general one at the logarithmic mapping and a fixed store kind *)
+  | ["knewc"; k; ("default" | "logdense" | "defaultx") as c; a] ->
+    let kind = if c = "logdense" then "dense" else "pag" in
+    exec (["knew"; k; "log:a:" ^ a; kind; kind] @ (if c = "defaultx" then ["exact"] else [])) side impl_result
+  | ["knewc"; k; ("loglow" | "loghigh") as c; a; n] ->
+    let kind = (if c = "loglow" then "low:" else "high:") ^ n in exec ["knew"; k; "log:a:" ^ a; kind; kind] side impl_result
+  | ["knewc"; k; ("prov" | "provx") as c; a; kind] ->
+    exec (["knew"; k; "log:a:" ^ a; kind; kind] @ (if c = "provx" then ["exact"] else [])) side impl_result
   | "kadd" :: k :: v :: rest ->
     let (g, s) = get_sk k in
     let (c, unit) = match rest with [] -> (f64_of_hex "3ff0000000000000", true) | [w] -> (f64_of_hex w, false) | _ -> raise Unsupported in
@@ -478,7 +504,8 @@ let exec (toks : string list) (side : string list) (impl_result : string) : stri
      | M.ROk (a, b) -> g.sk <- Some a; g2.sk <- Some b; "ok"
      | M.RErr e -> "err " ^ err_name e
      | M.RPanic -> g.sk <- None; "panic")
-  | ["kcopy"; k2; k] -> let (g, s) = get_sk k in Hashtbl.replace sketches k2 (new_reg g.mn g.mx (Some (M.sk_copy s))); "ok"
+  | ["kcopy"; k2; k] -> let (g, s) = get_sk k in
+    let g2 = new_reg g.mn g.mx (Some (M.sk_copy s)) in g2.gm <- g.gm; Hashtbl.replace sketches k2 g2; "ok"
   | ["kclear"; k] -> let (g, s) = get_sk k in g.sk <- Some (M.sk_clear s); "ok"
   | ["kreweight"; k; w] -> let (g, s) = get_sk k in sk_result g (M.sk_reweight s (f64_of_hex w))
   | "kenc" :: b :: k :: omit :: rest ->
@@ -607,6 +634,23 @@ let exec (toks : string list) (side : string list) (impl_result : string) : stri
     let one = f64_of_hex "3ff0000000000000" in
     let t = List.fold_left (fun t v -> M.su_add t (M.q2f v) one) M.su_new (Hashtbl.find datasets d).M.ds_values in
     xstr (M.su_get_sum t)
+  (* ----- summary statistics used directly: Stat/Summary.v on Flocq binary64, bit for bit ----- *)
+  | ["tempty"; t] -> Hashtbl.replace statsr t M.su_new; "ok"
+  | ["tnew"; t; c; sm; mn; mx] ->
+    (match M.su_from_data (f64_of_hex c) (f64_of_hex sm) (f64_of_hex mn) (f64_of_hex mx) with
+     | Some st -> Hashtbl.replace statsr t st; "ok" | None -> "err bad-stats")
+  | ["tobs"; t] -> let st = Hashtbl.find statsr t in
+    Printf.sprintf "count=%s sum=%s min=%s max=%s" (fstr_f (M.su_count st)) (xstr (M.su_get_sum st)) (fstr_f (M.su_min st)) (fstr_f (M.su_max st))
+  | ["tobsx"; t] -> let st = Hashtbl.find statsr t in
+    Printf.sprintf "count=%s sum=%s min=%s max=%s" (xstr (M.su_count st)) (xstr (M.su_get_sum st)) (xstr (M.su_min st)) (xstr (M.su_max st))
+  | ["tadd"; t; v; c] -> Hashtbl.replace statsr t (M.su_add (Hashtbl.find statsr t) (f64_of_hex v) (f64_of_hex c)); "ok"
+  | ["taddcount"; t; c] -> Hashtbl.replace statsr t (M.su_add_to_count (Hashtbl.find statsr t) (f64_of_hex c)); "ok"
+  | ["taddsum"; t; a] -> Hashtbl.replace statsr t (M.su_add_to_sum (Hashtbl.find statsr t) (f64_of_hex a)); "ok"
+  | ["tmerge"; t; t2] -> Hashtbl.replace statsr t (M.su_merge (Hashtbl.find statsr t) (Hashtbl.find statsr t2)); "ok"
+  | ["treweight"; t; f] -> Hashtbl.replace statsr t (M.su_reweight (Hashtbl.find statsr t) (f64_of_hex f)); "ok"
+  | ["trescale"; t; f] -> Hashtbl.replace statsr t (M.su_rescale (Hashtbl.find statsr t) (f64_of_hex f)); "ok"
+  | ["tclear"; t] -> ignore (Hashtbl.find statsr t); Hashtbl.replace statsr t M.su_new; "ok"
+  | ["tcopy"; t2; t] -> Hashtbl.replace statsr t2 (Hashtbl.find statsr t); "ok"
   | _ -> ignore impl_result; exec_proto toks side
 
 (* ---------- main loop ---------- *)
@@ -633,19 +677,36 @@ let () =
             let (side, impl) = chunk [] in
             let readonly = List.mem (List.hd toks) ["ktoproto"; "kstream"; "toproto"; "pstream"; "layout"; "ksum"; "kacc"; "mnew";
                                                      "midx"; "mval"; "mlow"; "macc"; "mrange"; "meq"; "menc"; "mproto"; "mstream"; "pobs"; "kpobs"; "mpobs";
-                                                     "pmarshal"; "kpmarshal"; "mpmarshal"; "tobs"; "protomk"; "kpmk"; "mpmk"; "tnew"] in
+                                                     "pmarshal"; "kpmarshal"; "mpmarshal"; "tobs"; "tobsx"; "protomk"; "kpmk"; "mpmk"] in
             let poison () =
               if not readonly then
               List.iter (fun t ->
                   if Hashtbl.mem stores t then Hashtbl.replace stores t None;
                   (match Hashtbl.find_opt sketches t with Some g -> g.sk <- None | None -> ());
-                  Hashtbl.remove bytesr t; Hashtbl.remove datasets t) (List.tl toks) in
+                  Hashtbl.remove bytesr t; Hashtbl.remove datasets t; Hashtbl.remove statsr t) (List.tl toks) in
+            xdiff := [];
             let r = try exec toks side impl with
               | Unsupported | Not_found -> poison (); "unsupported"
               | Missing what -> "missing " ^ what
               | Stack_overflow -> "model-stack-overflow"
               | Failure m -> "model-failure " ^ m
               | Invalid_argument m -> "model-invalid " ^ m in
+            (* a register whose instruction carried a `# map` line gets the glue model of that mapping: from then on every Index/Value the
+               implementation reports for it is compared with the model's own (bit for bit) before it is used *)
+            (match toks with
+             | _ :: k :: _ when Hashtbl.mem sketches k && List.hd toks <> "kcopy" ->
+               (match (try side_map side with _ -> None) with
+                | Some (id, _, _) ->
+                  let kind = (match Z.to_int (to_zn id.M.mk_kind) with 0 -> Some M.MLog | 1 -> Some M.MLin | 3 -> Some M.MCub | _ -> None) in
+                  let g = Hashtbl.find sketches k in
+                  (match kind with
+                   | Some kd -> (match (try M.with_gamma the_libm kd id.M.mk_gamma id.M.mk_off with _ -> None) with
+                       | Some m -> g.gm <- (Some (fun v -> M.gm_index the_libm m v), Some (fun i -> M.gm_value the_libm m i))
+                       | None -> g.gm <- (None, None))
+                   | None -> g.gm <- (None, None))
+                | None -> ())
+             | _ -> ());
+            let r = if !xdiff = [] then r else r ^ " " ^ String.concat " " (List.rev !xdiff) in
             Buffer.add_string out r; Buffer.add_char out '\n');
          if Buffer.length out > (1 lsl 19) then flush_out ()
        end
